@@ -384,3 +384,23 @@ Proof.
   split; [vm_compute; reflexivity|].
   intros t Ht. destruct t as [|[|[|t]]]; try lia; vm_compute; reflexivity.
 Qed.
+
+(* ---- the cap itself ---- *)
+Lemma threshold_bounds n : 1 <= n -> 1 <= threshold n <= n /\ Nat.leb (threshold n) 0 = false.
+Proof.
+  intros H. pose proof (threshold_pos n H) as H1.
+  assert (threshold n <= n) as H2.
+  { unfold threshold. apply Nat.div_le_upper_bound; lia. }
+  split; [lia|]. apply Nat.leb_gt. lia.
+Qed.
+
+(* an idle pool takes a slow request: a worker that gets the mutex with only the marker queued,
+   a pending slow request and nothing slow running leaves with that request *)
+Lemma idle_pool_takes_slow c t w aux s r sp' fuel :
+  1 <= c_n c -> wq s = [ISlowMsg] -> sp s = r :: sp' -> running s = 0 ->
+  exists b, wk (wloop (S fuel) c t w aux s) w = WRun r b.
+Proof.
+  intros Hn Hq Hs Hr. destruct (threshold_bounds (c_n c) Hn) as [_ Hl].
+  cbn [wloop]. unfold wait_pred. rewrite Hq, Hr, Hl, Hs. exists true.
+  destruct sp'; cbn; apply updf_same.
+Qed.
